@@ -60,7 +60,7 @@ def run(ctx):
         d.sd, d.real, d.elab, d.hnames = c.sd, c.real, c.elab, c.hnames
         d.lines, d.files, d.faults = main, files, c.faults
         d.meta = {"main": "m/main.conf", "placements": placements, "inline": c.lines,
-                  "entry": rng.choice(["abs", "abs", "rel", "url", "fileobj-abs", "fileobj-rel", "fileobj-pathurl"])}
+                  "entry": rng.choice(["abs", "abs", "rel", "url", "fileobj-abs", "fileobj-rel", "fileobj-pathurl", "fileobj-copy-url"])}
         if d.meta["entry"] == "fileobj-pathurl" and any("%include" in l and "%" in l.split("%include", 1)[1]
                                                        for ls in [main] + list(files.values()) for l in ls):
             # with a plain path as the "URL", an %include argument is joined as a path: percent-escapes in it are not URL
